@@ -253,7 +253,21 @@ def c19_5(ctx, ss):
         d = (dif or dh)[0]
         ctx.violation("C19.5", k, where(b, b.node), f"the two converters diverge: C++ `{str(d[0])[:80]}` vs Python `{str(d[1])[:80]}`")
     from .c18 import c18_5
-    c18_5(ctx, ss, rule="C19.5", methods=["make_intro", "make_pars", "read_ampgen"])
+    c18_5(ctx, ss, rule="C19.5", methods=["make_intro", "make_pars", "read_ampgen", "make_lineshape", "make_spinfactor", "make_linefactor", "to_goofit"])
+    # a generator helper that exists in one language only (e.g. a cached lookup) makes the two outputs diverge over time
+    mfg = pf.module_facts(ss, GOOFIT)
+    a_, b_ = mfg.classes.get(CH[0]), mfg.classes.get(CH[1])
+    if a_ is not None and b_ is not None:
+        only = sorted(set(a_.methods) ^ set(b_.methods))
+        cached = [m for c_ in (a_, b_) for n_, m in c_.methods.items() if set(m.decorators) & {"lru_cache", "cache", "cached_property"}]
+        if only:
+            m0 = (a_.methods.get(only[0]) or b_.methods.get(only[0]))
+            ctx.violation("C19.5", f"{GOOFIT}:generators :: same-methods", where(m0, m0.node), f"method(s) {only} exist in only one of the two generators")
+        elif cached:
+            ctx.violation("C19.5", f"{GOOFIT}:generators :: no-cache", where(cached[0], cached[0].node),
+                          f"{cached[0].qualname} is cached across conversions: its result can belong to a file converted earlier")
+        else:
+            ctx.holds("C19.5", f"{GOOFIT}:generators :: same-methods", f"src/decaylanguage/{GOOFIT}", f"both generators define the same {len(a_.methods)} methods, none cached", len(a_.methods))
     # make_amplitude: different syntax, same data (amplitude string, real/imag value and error, count)
     mf = pf.module_facts(ss, GOOFIT)
     need = {"{self!s}", "{self.amp.real:.6}", "{self.amp.imag:.6}", "{self.err.real:.6}", "{self.err.imag:.6}", "{n}"}
